@@ -107,7 +107,7 @@ STATEMENT_STATUS: Dict[str, str] = {
                           "text/advance are the specified ones whenever the header can be read",
     "header_ignored": "proved: the FontFile bytes have no influence unless the font is non-Type3, non-standard-14 and "
                       "has no Encoding entry",
-    "exampleHeader_puts / put_underflow_raises": "proved by kernel evaluation of the tokeniser model on concrete headers",
+    "exampleHeader_puts / put_underflow_ignored / odd_dict_raises": "proved by kernel evaluation of the tokeniser model on concrete headers",
     "getFont_transparent / font_cache_transparent": "proved: PDFResourceManager.get_font with or without caching returns "
                                                     "for every request sequence exactly the freshly constructed fonts",
 }
@@ -450,7 +450,8 @@ def font_spec_eval(fs: Dict[str, Any]) -> List[Tuple[Optional[str], Optional[F]]
     mw = F(0)
     if desc is not None and desc.get("mw") is not None and (is_t3 or True):
         mw = F(desc["mw"])
-    scale = F(fs["fm"][0]) if is_t3 else F(1, 1000)
+    # a Type3 font without (usable) FontMatrix: the usual glyph space of 1/1000
+    scale = F(fs["fm"][0]) if is_t3 and fs["fm"] is not None else F(1, 1000)
     out: List[Tuple[Optional[str], Optional[F]]] = []
     for code in range(256):
         judged = tu_judged
@@ -546,7 +547,7 @@ def font_line(fs: Dict[str, Any]) -> str:
             ws += ["F", "none"]
         else:
             data_, l1 = type1_header(ff)
-            ws += ["F", str(l1), C.hx(data_)]
+            ws += ["F", "-" if l1 is None else str(l1), C.hx(data_)]
     if fs["fm"] is None:
         ws += ["M", "none"]
     else:
@@ -631,8 +632,9 @@ def ff_entry_kind(e) -> str:
 
 
 def ff_tie_only(ff) -> bool:
-    """Headers that are malformed on purpose (or cut inside a token by Length1): model/implementation tie only."""
-    return bool(ff.get("malformed")) or ff.get("l1") == "cut"
+    """Headers that are malformed on purpose (or cut inside a token by Length1): model/implementation tie only.
+    (`put` without operands is NOT malformed any more: the integrated code ignores it, and so must the oracle.)"""
+    return ff.get("malformed") == "odd-dict" or ff.get("l1") == "cut"
 
 
 def ff_intent(ff) -> List[Tuple[int, Any]]:
@@ -650,7 +652,7 @@ def ff_intent(ff) -> List[Tuple[int, Any]]:
         elif k == "false":
             out.append((0, dec_name(e[1])))
         # "real" (a real-number key) and "str" (a string instead of a name) assign nothing
-    if ff.get("tail") and ff.get("l1") == "beyond":
+    if ff.get("tail") and ff.get("l1") in ("beyond", "absent"):
         out += [(65, ("s", "Z")), (66, ("s", "Y"))]
     return out
 
@@ -663,7 +665,7 @@ def t1_name(h: str, escape: bool) -> bytes:
     return n
 
 
-def type1_header(ff) -> Tuple[bytes, int]:
+def type1_header(ff) -> Tuple[bytes, Optional[int]]:
     sep = T1_SEPS[ff.get("sep", 0) % len(T1_SEPS)]
     esc = bool(ff.get("escape"))
     out = [b"%!PS-AdobeFont-1.0: Synth 001.001\n"]
@@ -698,8 +700,10 @@ def type1_header(ff) -> Tuple[bytes, int]:
     head = b"".join(out)
     # bytes after Length1 must not be read as part of the clear-text header
     tail = b"dup 65 /Z put\ndup 66 /Y put\n" if ff.get("tail") else b""
-    l1 = len(head)
-    if ff.get("l1") == "beyond":
+    l1: Optional[int] = len(head)
+    if ff.get("l1") == "absent":
+        l1 = None
+    elif ff.get("l1") == "beyond":
         l1 = len(head) + len(tail) + 10
     elif ff.get("l1") == "cut":
         l1 = max(0, len(head) - 25)
@@ -759,15 +763,20 @@ def font_objects(fs: Dict[str, Any], n0: int) -> Tuple[Dict[int, Any], int]:
             dd["MissingWidth"] = int(m) if m.denominator == 1 else m
         if desc.get("ff") is not None:
             data_, l1 = type1_header(desc["ff"])
-            objs[n] = W.Stream({"Length1": l1, "Length2": len(data_) - l1, "Length3": 0}, data_)
+            objs[n] = W.Stream({"Length3": 0} if l1 is None else
+                               {"Length1": l1, "Length2": len(data_) - l1, "Length3": 0}, data_)
             dd["FontFile"] = W.Ref(n)
             n += 1
         objs[n] = dd
         f["FontDescriptor"] = W.Ref(n)
         n += 1
     if fs["subtype"] == "Type3":
-        f["FontBBox"] = [0, -200, 1000, 800]
-        f["FontMatrix"] = [int(F(x)) if F(x).denominator == 1 else F(x) for x in fs["fm"]]
+        if not fs.get("t3_nobbox"):
+            f["FontBBox"] = [0, -200, 1000, 800]
+        if fs["fm"] is not None:
+            f["FontMatrix"] = [int(F(x)) if F(x).denominator == 1 else F(x) for x in fs["fm"]]
+        elif fs.get("t3_badmatrix"):
+            f["FontMatrix"] = fs["t3_badmatrix"]
         f["CharProcs"] = {}
     objs[n] = f
     return objs, n
@@ -1205,6 +1214,9 @@ def gen_font(rng, force: Optional[str] = None) -> Tuple[Dict[str, Any], List[str
             elif r1 < 0.18:
                 ff["l1"] = "cut"
                 kinds.append("ff:length1-cut")
+            elif r1 < 0.28:
+                ff["l1"] = "absent"
+                kinds.append("ff:length1-absent")
             if rng.random() < 0.08:
                 ff["malformed"] = rng.choice(["put-underflow", "odd-dict"])
                 kinds.append("ff:malformed-" + ff["malformed"])
@@ -1213,7 +1225,13 @@ def gen_font(rng, force: Optional[str] = None) -> Tuple[Dict[str, Any], List[str
         fs["desc"] = desc
     else:
         kinds.append("d:absent")
-    if is_t3:
+    if is_t3 and rng.random() < 0.08:
+        kinds.append("t3:no-matrix")
+        if rng.random() < 0.5:
+            fs["t3_badmatrix"] = rng.choice([[1, 0, 0], "Foo", [1, 0, 0, "x", 0, 0], []])
+            kinds.append("t3:bad-matrix")
+        fs["t3_nobbox"] = rng.random() < 0.5
+    elif is_t3:
         m = rng.random()
         if m < 0.5:
             fs["fm"] = ["1/1000", "0", "0", "1/1000", "0", "0"]
@@ -1412,7 +1430,7 @@ def font_failure_tags(fs: Dict[str, Any], code: int, what: str, kinds: List[str]
     return {"op": "font", "code": code, "what": what, "subtype": fs["subtype"], "std14": bf in d["fm"],
             "has_widths": fs["widths"] is not None, "has_tounicode": fs["tu"] is not None,
             "has_fontfile": bool(fs["desc"] and fs["desc"].get("ff")), "has_encoding": fs["enc"] is not None,
-            "skewed": bool(fs["fm"]) and fs["fm"][2] != "0", "kinds": sorted(set(kinds))}
+            "skewed": bool(fs.get("fm")) and fs["fm"][2] != "0", "kinds": sorted(set(kinds))}
 
 
 def font_tie_only(fs: Dict[str, Any]) -> bool:
@@ -1673,7 +1691,7 @@ def run_t1puts(ctx: C.Ctx) -> None:
             fs, _ = gen_font(rng, force="Type1")
         ff = fs["desc"]["ff"]
         data_, l1 = type1_header(ff)
-        data_ = data_[:l1]
+        data_ = data_ if l1 is None else data_[:l1]
         kind = "asis"
         if i % 3 == 1 and data_:
             # damage: drop / duplicate / replace a few bytes (unbalanced brackets, split tokens, stray `put`s)
